@@ -3,5 +3,5 @@ CONSTANTS LeafVals = {0, 3}
  RhsVals = {0}
  FullEq = FALSE
  Guarded = TRUE
-INVARIANTS TypeOK ValTotal Sound EvAgrees Laws
+INVARIANTS TypeOK ValTotal Sound EvAgrees Laws BigAgrees
 CHECK_DEADLOCK FALSE
